@@ -11,10 +11,7 @@ import (
 // the directory; the stores are deliberately not closed (asynchronous instance deletions started by repo deletion
 // may still be running, and the process is about to exit anyway).
 func bootTemp(c *vlib.Ctx, o vsrv.Options) (cleanup func(), ok bool) {
-	dir, err := os.MkdirTemp("/dev/shm", "verif-"+c.ID+"-")
-	if err != nil {
-		dir, err = os.MkdirTemp("", "verif-"+c.ID+"-")
-	}
+	dir, err := vlib.MkScratch(c.ID)
 	if err != nil {
 		c.Violate("harness:tmpdir", err.Error(), nil)
 		return func() {}, false
